@@ -20,7 +20,7 @@ pub struct Params {
 pub fn params(prop: &str, tier: &str) -> Params {
     let thorough = common::tier_is_thorough(tier);
     let (q, t, qcap, tcap) = match prop {
-        "C01" => (4, 6, 40, 900),
+        "C01" => (4, 6, 90, 900),
         "C05" => (3, 5, 40, 900),
         "C20" => (3, 4, 40, 1200),
         "C10" => (3, 5, 40, 1200),
@@ -147,6 +147,9 @@ pub fn menu(prop: &str, tier: &str, depth: usize, e: &Exec) -> Vec<Op> {
                     out.push(app(t, c.clone(), ""));
                 }
                 out.push(app("a", c.clone(), &time_ttl()));
+            }
+            if thorough || !e.live.values().any(|m| matches!(m.frame.ttl, Some(TTL::Head(_)))) {
+                out.push(app("ab", Ctx::Zero, "head:1"));
             }
             if thorough || !e.live.values().any(|m| m.frame.hash.is_some()) {
                 out.push(Op::Append { topic: "a".into(), ctx: ctxs.last().unwrap().clone(), ttl: "".into(), meta: Some(json!({"k": [1, "x", null], "n": 1.5})), body: Some("body".into()) });
